@@ -56,11 +56,11 @@ PROPS = {
                 text="Real client and server with a wire monitor under every underlying Write; random and directed bridge seeds (tables {0}, {1448}, {4}, {34}, {1428}, {1275,0}), directed application write sizes putting the burst tail at target-23..target+2, all IAT modes and both bias settings; oracle from an independently derived table: burst length obeys the padding rule for some target, IAT writes <= 1448, paranoid writes are non-zero table values (1448 accepted when the table contains 0), client bursts checked against the server's table once it has delivered server payload; every Write terminates, no panic.",
                 note="Trusted: simulator, reference DRBG/table derivation. The all-pairs arithmetic of the quantifier is sampled through the API, not enumerated.",
                 technique=TECH + "wire-size monitor against an independently derived seeded table"),
-    "C13": dict(engine="wire", quick=40, thorough=600, level="exploration", design="DESIGN.md section 4, C13",
+    "C13": dict(engine="wire", engines=["wire", "woven"], quick=40, thorough=600, level="exploration", design="DESIGN.md section 4, C13",
                 text="obfs3 real<->real, real client<->reference server and reference client<->real server with extreme UniformDH private keys on either side (0, 1, 2, all-ones even/odd), X or p-X from the reference, padding 0..4097 per phase incl. extremes, all write plans, read sizes and chunkings (magic straddling reads, data coalesced behind it); rejection runs: padding of 8195..20000 bytes with or without a magic must fail the first Read with nothing delivered and the conn closed, while exactly 8194 (and just below) must be accepted; oracle: stream-prefix model plus completeness after 10 quiet virtual minutes, reference decrypts everything.",
                 note="Trusted: simulator, the independent obfs3/UniformDH reference (sim/ref/obfsref, math/big). Shared-secret agreement for X / p-X is established through two-role interop, not algebraically.",
                 technique=TECH + "two-party interop against an independent reference, seeded segmentation, edge-entropy injection"),
-    "C14": dict(engine="wire", quick=40, thorough=600, level="exploration", design="DESIGN.md section 4, C14",
+    "C14": dict(engine="wire", engines=["wire", "woven"], quick=40, thorough=600, level="exploration", design="DESIGN.md section 4, C14",
                 text="obfs2 real<->real and both real/reference role pairings with reference padding 0..8192 incl. extremes, all write plans and chunkings; rejection runs with every single-bit corruption of the magic and PADLEN 8193 .. 2^32-1 (must fail Dial/WrapConn) and PADLEN 8192 (must be accepted); the reference parses the real side's seed/magic/padlen and decrypts its stream byte-exactly.",
                 note="Trusted: simulator, the independent obfs2 reference (sim/ref/obfsref).",
                 technique=TECH + "two-party interop against an independent reference, seeded segmentation, malformed-handshake injection"),
@@ -105,10 +105,15 @@ ENGINES = {
         dict(path="transports/obfs4/packet.go", yields=True, go=True),
         dict(path="transports/obfs4/handshake_ntor.go", yields=True, go=True),
         dict(path="transports/meeklite/meek.go", yields=True, go=True, sync=True),
+        dict(path="transports/obfs4/framing/framing.go", yields=True, go=True),
+        dict(path="transports/obfs3/obfs3.go", yields=True, go=True),
+        dict(path="transports/obfs2/obfs2.go", yields=True, go=True),
     ]),
     "disk": dict(src="disk", pkg="zz_verif/disk", weave=[
         dict(path="transports/obfs4/statefile.go", os=True),
-        dict(path="transports/scramblesuit/handshake_ticket.go", os=True),
+        dict(path="transports/scramblesuit/handshake_ticket.go", os=True, yields=True, go=True, sync=True),
+        dict(path="transports/scramblesuit/conn.go", yields=True, go=True),
+        dict(path="transports/scramblesuit/handshake_uniformdh.go", yields=True, go=True),
     ]),
 }
 
@@ -487,7 +492,7 @@ NOT_APPLICABLE = {
 ENGINE_KIND = {
     "woven": "B2: listed repository files rewritten at build time by /verif/weave (yield before every statement, go statements as named tasks, sync -> simsync) and substituted through the build overlay; everything else as B1",
     "relay": "B1 with in-package injection: harness test files are overlaid into package main of obfs4proxy so copyLoop and termMonitor run unmodified; runtime select order comes from the seeded seam",
-    "disk": "B2 (import shim only): statefile.go and handshake_ticket.go compiled with os -> verifsim/simos (in-memory disk with kill/torn-write/EIO/ENOSPC injection at every step); everything else as B1",
+    "disk": "B2: statefile.go and handshake_ticket.go compiled with os -> verifsim/simos (in-memory disk with kill/torn-write/EIO/ENOSPC injection at every step); the ScrambleSuit client files additionally woven (yield before every statement, sync -> simsync), live in a tape-chosen fraction of the runs; everything else as B1",
     "wire": "B1: unmodified repository packages inside a testing/synctest bubble on the simulated network/clock/entropy; park-release scheduler driven by a seeded choice tape",
 }
 
